@@ -22,6 +22,9 @@ inductive Value where
   | err (r : Nat)            -- identity matters: errors compare by pointer
   | fn (r : Nat)
   | builtin (name : String)
+  | cfn (r : Nat)            -- VM model: compiled function object (constant index + captured cells)
+  | ptr (r : Nat)            -- VM model: ObjectPtr (a boxed local / captured variable cell)
+  | iter (r : Nat)           -- VM model: iterator object
   deriving Inhabited
 
 /-- A scope maps names to heap cells; an environment is a stack of scopes, innermost first. The
@@ -46,6 +49,10 @@ inductive Obj where
   | cell (v : Value) (loopGlobal : Bool)
   | err (v : Value)
   | clos (c : Closure)
+  | cfn (const : Nat) (free : List Nat)                       -- VM model
+  | arrIt (store off len : Nat) (i : Nat)                     -- VM model: ArrayIterator over a live slice
+  | listIt (kind : Nat) (items : List (Value × Value)) (i : Nat)   -- VM model: string (0) / bytes (1) / undefined (2) iterators
+  | mapIt (m : Nat) (keys : List Bytes) (i : Nat)             -- VM model: MapIterator (keys fixed, values looked up live)
   deriving Inhabited
 
 inductive Err where
@@ -212,6 +219,7 @@ def typeName : Value → String
   | .str _ => "string" | .bytes _ => "bytes" | .arr _ => "array" | .imarr _ => "immutable-array"
   | .map _ => "map" | .immap _ => "immutable-map" | .err _ => "error" | .fn _ => "compiled-function"
   | .builtin n => "builtin-function:" ++ n
+  | .cfn _ => "compiled-function" | .ptr _ => "<free-var>" | .iter _ => "iterator"
 
 /-- Elements of an array value (mutable or immutable). -/
 def arrElems (r : Nat) : M (List Value) := do
@@ -260,6 +268,9 @@ def isFalsy : Value → M Bool
   | .err _ => pure true
   | .fn _ => pure false
   | .builtin _ => pure false
+  | .cfn _ => pure false
+  | .ptr _ => pure false
+  | .iter _ => pure true
 
 /-! ### new containers -/
 
@@ -321,6 +332,9 @@ def toStringV : Nat → Value → M Bytes
         | _ => unsupported "bad error ref"
     | .fn _ => pure (strBytes "<compiled-function>")
     | .builtin _ => pure (strBytes "<builtin-function>")
+    | .cfn _ => pure (strBytes "<compiled-function>")
+    | .ptr _ => pure (strBytes "free-var")
+    | .iter _ => unsupported "text of an iterator"
 
 /-- `ToString`: strings as they are, undefined has no conversion. -/
 def toStringConv (v : Value) : M (Option Bytes) :=
